@@ -53,9 +53,9 @@ struct Log {
     std::vector<TransferRec> transfers;
     std::vector<CoarseRec> coarse;
     int empty_levels = 0;
-    // known finding F-zero-coarse-level: a prolongation with zero columns (every aggregate smaller than nullspace.cols was removed)
-    // makes amg build a 0x0 coarse matrix and hand it to the direct solver, which dereferences a null pointer (process dies).
-    // With the guard on, the recording policy aborts the construction with ZeroCoarseLevel instead, so the case can be excluded.
+    // A prolongation with zero columns (every aggregate smaller than nullspace.cols removed; defect fixed in /repo by ef9207a) makes amg
+    // build a 0x0 coarse matrix and hand it to the direct solver, which dereferences a null pointer (process dies).  With the guard on,
+    // the recording policy aborts the construction with ZeroCoarseLevel instead, so that a regression is reported as a clean failure.
     bool guard_zero_coarse = true;
     void clear() { transfers.clear(); coarse.clear(); empty_levels = 0; }
 };
